@@ -260,3 +260,26 @@ def discover_serialisers():
 
             visit(tree, [])
     return sorted(found)
+
+
+# ------------------------------------------------------------------ size dimension for the library-side serialisers
+from harness import sizes as _sizes  # noqa: E402
+
+_sizes.size_cases(70000, extra=_sizes.ENV_SIZES)
+
+
+def ser_long(which, k, pat):
+    t = _sizes.long_text(_sizes.pick(_sizes.size_cases(70000, extra=_sizes.ENV_SIZES), k), pat)
+    if which == 0:
+        return elicitation_request(t, t, t or "t")
+    if which == 1:
+        return tool_result_dict(t, 7, False)
+    if which == 2:
+        return content_dict(0, t, 0)
+    if which == 3:
+        return sampling_request(t, t, 7)
+    if which == 4:
+        return completion_request(t, t, t)
+    if which == 5:
+        return roots_response(t or "n", t or "r")
+    return initialize_request(t or "v")
